@@ -113,6 +113,8 @@ def helperOps (tag : Str) (t shellT : Table) : List Str → World × Bool × Nat
     match op with
     | 'P' :: _ => helperOps tag t shellT rest (w.note s!"P:{String.ofList tag}:{showTable shellT}", rd, st)
     | 'S' :: v => helperOps tag t shellT rest (w.note s!"S:{String.ofList tag}:{String.ofList v}", rd, st)
+    -- `G`: the disposition of SIGPIPE the program starts with: always the default (the shell never leaves it ignored)
+    | 'G' :: _ => helperOps tag t shellT rest (w.note s!"S:{String.ofList tag}:dfl", rd, st)
     | 'R' :: _ =>
       let (w1, ls) := if rd then (w, []) else w.readAll ((t 0).map (·.obj))
       helperOps tag t shellT rest (w1.note s!"I:{String.ofList tag}:{",".intercalate ((noDiag ls).map hexStr)}", true, st)
